@@ -1243,7 +1243,21 @@ func init() {
 			if !ok || u.Decl == nil {
 				return []Obligation{anchorMissing(rid, "the implementation of s:has-key")}
 			}
+			// has-key and may-have-key may share one implementation selected by a constant flag
+			// (`return keyConstraint(env, args, true)`): the validator is judged with the flag bound
+			body, u, flags := c.followForwarder(body, u)
 			info := u.Pkg.TypesInfo
+			flagAtom := func(e ast.Expr) int {
+				if o := identObj(info, e); o != nil {
+					if v, ok := flags[o]; ok {
+						if v {
+							return 1
+						}
+						return 0
+					}
+				}
+				return -1
+			}
 			var obs []Obligation
 			ord := &ordinal{}
 			nlits := 0
@@ -1267,8 +1281,20 @@ func init() {
 					}
 					return false
 				})
+				// what cannot run for s:has-key (the flag's other value) is out of the picture
+				if len(flags) > 0 {
+					under := fc.reachableUnder(flagAtom)
+					for _, b := range fc.G.Blocks {
+						if !under[b] {
+							gets[b] = true
+						}
+					}
+				}
 				for _, b := range fc.G.Blocks {
 					if !fc.Live(b) {
+						continue
+					}
+					if len(flags) > 0 && !fc.reachableUnder(flagAtom)[b] {
 						continue
 					}
 					for _, m := range b.Nodes {
